@@ -14,12 +14,20 @@ import (
 var run *hlib.Run
 
 // how long a Plan call may take before the harness reports "diverges"
-var planTimeout = 20 * time.Second
+var planTimeout = 8 * time.Second
 var rrTimeout = 3 * time.Second
+var lastPanic string
+
+// Plan calls that did not return keep spinning in their goroutine; after three of them per strategy the
+// harness stops calling that strategy (the failures are already recorded)
+var gaveUp = map[string]int{}
 
 // callPlan runs the real strategy in a goroutine guarded by a timeout.
 // status: ok | err | diverges | panic
 func callPlan(strat string, g *Group) (sarama.BalanceStrategyPlan, string) {
+	if gaveUp[strat] >= 3 {
+		return nil, "skipped"
+	}
 	members, topics := g.saramaInput()
 	type res struct {
 		plan sarama.BalanceStrategyPlan
@@ -29,6 +37,7 @@ func callPlan(strat string, g *Group) (sarama.BalanceStrategyPlan, string) {
 	go func() {
 		defer func() {
 			if r := recover(); r != nil {
+				lastPanic = fmt.Sprint(r)
 				ch <- res{nil, "panic"}
 			}
 		}()
@@ -39,7 +48,7 @@ func callPlan(strat string, g *Group) (sarama.BalanceStrategyPlan, string) {
 		case "rr":
 			s = sarama.BalanceStrategyRoundRobin
 		default:
-			s = sarama.BalanceStrategySticky
+			s = sarama.VerifNewSticky()
 		}
 		p, err := s.Plan(members, topics)
 		if err != nil {
@@ -56,6 +65,7 @@ func callPlan(strat string, g *Group) (sarama.BalanceStrategyPlan, string) {
 	case r := <-ch:
 		return r.plan, r.st
 	case <-time.After(to):
+		gaveUp[strat]++
 		return nil, "diverges"
 	}
 }
@@ -245,6 +255,10 @@ func stickyClass(g *Group, why, detail string) string {
 func doPlan(strat, kind string, g *Group) (Asg, map[string]string) {
 	ms, ts := g.membersStr(), g.topicsStr()
 	plan, st := callPlan(strat, g)
+	if st == "skipped" {
+		run.Count(strat + "-skipped-after-divergence")
+		return nil, nil
+	}
 	run.Count(strat)
 	// 1. differential line against the executable model (range, round-robin)
 	switch strat {
@@ -299,7 +313,7 @@ func doPlan(strat, kind string, g *Group) (Asg, map[string]string) {
 		expectErr := (strat == "sticky" && bad) || (strat == "rr" && (len(g.Members) == 0 || len(g.Topics) == 0))
 		run.Emit(op, st)
 		if st == "panic" {
-			run.IOFail(strat+"-panic", op, "Plan panicked")
+			run.IOFail(strat+"-panic", op, "Plan panicked: "+lastPanic)
 		} else if st == "err" && !expectErr && PROP == "C08" {
 			run.IOFail(strat+"-unexpected-error", op, "Plan returned an error")
 		} else if st == "diverges" && strat != "rr" && PROP == "C08" {
